@@ -15,7 +15,8 @@ macro_rules! enum_row {
             (format!("{:?}", v), text, back)
         }
         fn reprint(s: &str) -> Result<String, String> {
-            <$ty>::from_str(s).map(|v| v.to_string()).map_err(|e| format!("{:?}", e))
+            // (&v): apt_sources::YesNoForce implements ToString for the reference only
+            <$ty>::from_str(s).map(|v| (&v).to_string()).map_err(|e| format!("{:?}", e))
         }
         TypeRow { ty: $name, n_values: n, value, canonical: &[$($kw),+], reprint, keywords: &[$($kw),+], case_insensitive: $ci }
     }};
@@ -39,15 +40,204 @@ macro_rules! record_row {
     }};
 }
 
+/// The three-token checksum records all have the shape {<hash field>, size, filename}.
+macro_rules! checksum_row {
+    ($ty:ident, $name:literal, $hash:ident) => {
+        record_row!($ty, $name,
+            values = {
+                let mut out = vec![];
+                for h in TOKENS { for s in SIZES { for f in TOKENS {
+                    out.push($ty { $hash: h.to_string(), size: s, filename: f.to_string() });
+                }}}
+                out
+            },
+            canonical = ["da39a3ee 0 empty", "abc 18446744073709551615 x.y_1", "é 42 é"])
+    };
+}
+
 pub const TOKENS: [&str; 4] = ["a", "0", "x.y_1", "é"];
 pub const SIZES: [usize; 4] = [0, 1, 42, usize::MAX];
+
+/// Repository locations for the VCS rows (whitespace-free).
+const URLS: [&str; 4] = ["https://example.com/r.git", "git@host:a/b", "a", "é"];
+const BRANCHES: [Option<&str>; 3] = [None, Some("main"), Some("debian/sid")];
+const SUBPATHS: [Option<&str>; 3] = [None, Some("sub"), Some("a/b")];
+
+fn priorities() -> Vec<debian_control::fields::Priority> {
+    use debian_control::fields::Priority;
+    vec![Priority::Required, Priority::Important, Priority::Standard, Priority::Optional, Priority::Extra]
+}
+
+// ---------------------------------------------------------------------------------------------
+// vcs::Vcs (no FromStr / Display / PartialEq): to_field() -> from_field(name, text), Debug compare
+// ---------------------------------------------------------------------------------------------
+mod vcs_row {
+    use super::*;
+    use debian_control::vcs::Vcs;
+
+    fn o(x: Option<&str>) -> Option<String> {
+        x.map(|s| s.to_string())
+    }
+
+    pub fn all() -> Vec<Vcs> {
+        let mut out = vec![];
+        for u in URLS {
+            for b in BRANCHES {
+                for s in SUBPATHS {
+                    out.push(Vcs::Git { repo_url: u.to_string(), branch: o(b), subpath: o(s) });
+                }
+            }
+            for s in SUBPATHS {
+                out.push(Vcs::Bzr { repo_url: u.to_string(), subpath: o(s) });
+            }
+            out.push(Vcs::Hg { repo_url: u.to_string() });
+            out.push(Vcs::Svn { url: u.to_string() });
+            for m in [None, Some("mod"), Some("a/b")] {
+                out.push(Vcs::Cvs { root: u.to_string(), module: o(m) });
+            }
+        }
+        out
+    }
+    pub fn n() -> usize {
+        all().len()
+    }
+    /// text form used by this row: "<Kind>|<field value>"
+    pub fn value(i: usize) -> (String, String, Result<String, String>) {
+        let v = &all()[i];
+        let (name, text) = v.to_field();
+        let back = Vcs::from_field(name, &text).map(|b| format!("{:?}", b));
+        (format!("{:?}", v), format!("{}|{}", name, text), back)
+    }
+    pub fn reprint(s: &str) -> Result<String, String> {
+        let (name, text) = s.split_once('|').ok_or_else(|| "row text must be Kind|value".to_string())?;
+        let v = Vcs::from_field(name, text)?;
+        let (n2, t2) = v.to_field();
+        Ok(format!("{}|{}", n2, t2))
+    }
+    pub const CANONICAL: &[&str] = &[
+        "Git|https://example.com/r.git",
+        "Git|https://example.com/r.git -b main",
+        "Git|https://example.com/r.git [sub]",
+        "Git|https://example.com/r.git -b debian/sid [a/b]",
+        "Bzr|https://example.com/b",
+        "Bzr|https://example.com/b [sub]",
+        "Hg|https://example.com/h",
+        "Svn|https://example.com/s/trunk",
+        "Cvs|:pserver:anonymous@example.com:/cvs",
+        "Cvs|:pserver:anonymous@example.com:/cvs mod",
+    ];
+
+    /// keyword row for the VCS kind name accepted by from_field
+    pub fn kind_n() -> usize {
+        KINDS.len()
+    }
+    pub const KINDS: &[&str] = &["Git", "Bzr", "Hg", "Svn", "Cvs"];
+    pub fn kind_value(i: usize) -> (String, String, Result<String, String>) {
+        let k = KINDS[i];
+        let back = Vcs::from_field(k, "https://example.com/x").map(|v| v.to_field().0.to_string());
+        (k.to_string(), k.to_string(), back)
+    }
+    pub fn kind_reprint(s: &str) -> Result<String, String> {
+        Vcs::from_field(s, "https://example.com/x").map(|v| v.to_field().0.to_string())
+    }
+}
+
+// ---------------------------------------------------------------------------------------------
+// dep3 Origin with its optional category prefix (format_origin / parse_origin are crate-private:
+// reached through lossless::PatchHeader::{set_origin, origin} and through the lossy PatchHeader)
+// ---------------------------------------------------------------------------------------------
+mod origin_row {
+    use super::*;
+    use dep3::{Origin, OriginCategory};
+
+    pub fn all() -> Vec<(Option<OriginCategory>, Origin)> {
+        let cats = [None, Some(OriginCategory::Backport), Some(OriginCategory::Vendor), Some(OriginCategory::Upstream), Some(OriginCategory::Other)];
+        let mut out = vec![];
+        for c in cats {
+            for t in TOKENS.iter().chain(["https://example.com/p.patch"].iter()) {
+                out.push((c, Origin::Commit(t.to_string())));
+                out.push((c, Origin::Other(t.to_string())));
+            }
+            // what the crate's own parser returns for the bare keyword form ("Origin: vendor")
+            if c.is_some() {
+                out.push((c, Origin::Other(String::new())));
+            }
+        }
+        out
+    }
+    pub fn n() -> usize {
+        all().len()
+    }
+
+    // lossless: text form is the printed header "Origin: <value>\n"
+    pub fn value_lossless(i: usize) -> (String, String, Result<String, String>) {
+        let (c, o) = all()[i].clone();
+        let mut h = dep3::lossless::PatchHeader::new();
+        h.set_origin(c, o.clone());
+        let text = h.to_string();
+        let back = dep3::lossless::PatchHeader::from_str(&text).map(|h2| format!("{:?}", h2.origin())).map_err(|e| format!("{:?}", e));
+        (format!("{:?}", Some((c, o))), text, back)
+    }
+    pub fn reprint_lossless(s: &str) -> Result<String, String> {
+        let h = dep3::lossless::PatchHeader::from_str(&format!("Origin: {}\n", s)).map_err(|e| format!("{:?}", e))?;
+        let (c, o) = h.origin().ok_or_else(|| "no origin".to_string())?;
+        let mut h2 = dep3::lossless::PatchHeader::new();
+        h2.set_origin(c, o);
+        let t = h2.to_string();
+        let t = t.strip_prefix("Origin: ").ok_or_else(|| format!("printed header {:?} lacks the field", t))?;
+        Ok(t.strip_suffix('\n').unwrap_or(t).to_string())
+    }
+
+    fn lossy_header(v: Option<(Option<OriginCategory>, Origin)>) -> dep3::lossy::PatchHeader {
+        dep3::lossy::PatchHeader {
+            origin: v,
+            forwarded: None,
+            author: None,
+            reviewed_by: None,
+            bug_debian: None,
+            last_update: None,
+            applied_upstream: None,
+            bug: None,
+            description: None,
+        }
+    }
+    pub fn value_lossy(i: usize) -> (String, String, Result<String, String>) {
+        let (c, o) = all()[i].clone();
+        let h = lossy_header(Some((c, o.clone())));
+        let text = h.to_string();
+        let back = dep3::lossy::PatchHeader::from_str(&text).map(|h2| format!("{:?}", h2.origin));
+        (format!("{:?}", Some((c, o))), text, back)
+    }
+    pub fn reprint_lossy(s: &str) -> Result<String, String> {
+        let h = dep3::lossy::PatchHeader::from_str(&format!("Origin: {}\n", s))?;
+        let t = lossy_header(h.origin).to_string();
+        let t = t.strip_prefix("Origin: ").ok_or_else(|| format!("printed header {:?} lacks the field", t))?;
+        Ok(t.strip_suffix('\n').unwrap_or(t).to_string())
+    }
+    pub const CANONICAL: &[&str] = &[
+        "https://example.com/p.patch",
+        "commit:abc123",
+        "vendor, https://example.com/p.patch",
+        "upstream, commit:abc123",
+        "backport, commit:abc123",
+        "other, https://example.com/p.patch",
+    ];
+}
 
 pub fn rows() -> Vec<TypeRow> {
     use debian_control::fields::*;
     let mut v = vec![];
+
+    // ---- debian-control/src/fields.rs ----
     v.push(enum_row!(Priority, "fields::Priority",
         [Priority::Required, Priority::Important, Priority::Standard, Priority::Optional, Priority::Extra],
         keywords = ["required", "important", "standard", "optional", "extra"], case_insensitive = false));
+    v.push(enum_row!(MultiArch, "fields::MultiArch",
+        [MultiArch::Same, MultiArch::Foreign, MultiArch::No, MultiArch::Allowed],
+        keywords = ["same", "foreign", "no", "allowed"], case_insensitive = false));
+    v.push(enum_row!(Urgency, "fields::Urgency",
+        [Urgency::Low, Urgency::Medium, Urgency::High, Urgency::Emergency, Urgency::Critical],
+        keywords = ["low", "medium", "high", "emergency", "critical"], case_insensitive = true));
     v.push(record_row!(Sha1Checksum, "fields::Sha1Checksum",
         values = {
             let mut out = vec![];
@@ -57,5 +247,152 @@ pub fn rows() -> Vec<TypeRow> {
             out
         },
         canonical = ["da39a3ee 0 empty", "abc 18446744073709551615 x.y_1"]));
+    v.push(checksum_row!(Sha256Checksum, "fields::Sha256Checksum", sha256));
+    v.push(checksum_row!(Sha512Checksum, "fields::Sha512Checksum", sha512));
+    v.push(checksum_row!(Md5Checksum, "fields::Md5Checksum", md5sum));
+    v.push(record_row!(PackageListEntry, "fields::PackageListEntry",
+        values = {
+            // 0 or exactly 1 extra key (two extras print in hash order)
+            let extras: [Option<(&str, &str)>; 4] = [None, Some(("arch", "any")), Some(("é", "x.y_1")), Some(("k", ""))];
+            let mut out = vec![];
+            for p in TOKENS { for t in TOKENS { for s in TOKENS { for pr in priorities() { for e in extras {
+                let mut ent = PackageListEntry::new(p, t, s, pr.clone());
+                if let Some((k, val)) = e {
+                    ent.extra.insert(k.to_string(), val.to_string());
+                }
+                out.push(ent);
+            }}}}}
+            // an extra whose value itself contains '=' (kept out of the product: one value, not 320 copies of it)
+            let mut ent = PackageListEntry::new("a", "deb", "net", Priority::Optional);
+            ent.extra.insert("k".to_string(), "a=b".to_string());
+            out.push(ent);
+            out
+        },
+        canonical = ["foo deb net optional", "foo deb net optional arch=any", "libé udeb x.y_1 extra profile=!stage1"]));
+
+    // ---- debian-control/src/lossless/changes.rs ----
+    v.push(record_row!(debian_control::changes::File, "changes::File",
+        values = {
+            let mut out = vec![];
+            for m in TOKENS { for sz in SIZES { for s in TOKENS { for pr in priorities() { for f in TOKENS {
+                out.push(debian_control::changes::File { md5sum: m.to_string(), size: sz, section: s.to_string(), priority: pr.clone(), filename: f.to_string() });
+            }}}}}
+            out
+        },
+        canonical = ["d41d8cd9 0 net optional foo_1.0.dsc", "abc 18446744073709551615 x.y_1 required é"]));
+
+    // ---- debian-control/src/relations.rs ----
+    {
+        use debian_control::relations::{BuildProfile, VersionConstraint};
+        v.push(enum_row!(VersionConstraint, "relations::VersionConstraint",
+            [VersionConstraint::LessThan, VersionConstraint::LessThanEqual, VersionConstraint::Equal, VersionConstraint::GreaterThanEqual, VersionConstraint::GreaterThan],
+            keywords = ["<<", "<=", "=", ">=", ">>"], case_insensitive = false));
+        v.push(record_row!(BuildProfile, "relations::BuildProfile",
+            values = {
+                let mut out = vec![];
+                for t in TOKENS.iter().chain(["nocheck", "pkg.foo.bar"].iter()) {
+                    out.push(BuildProfile::Enabled(t.to_string()));
+                    out.push(BuildProfile::Disabled(t.to_string()));
+                }
+                out
+            },
+            canonical = ["nocheck", "!nocheck", "pkg.foo.bar", "!é"]));
+    }
+
+    // ---- debian-control/src/vcs.rs ----
+    {
+        use debian_control::vcs::ParsedVcs;
+        v.push(record_row!(ParsedVcs, "vcs::ParsedVcs",
+            values = {
+                let mut out = vec![];
+                for u in URLS { for b in BRANCHES { for s in SUBPATHS {
+                    out.push(ParsedVcs { repo_url: u.to_string(), branch: b.map(|x| x.to_string()), subpath: s.map(|x| x.to_string()) });
+                }}}
+                out
+            },
+            canonical = ["https://example.com/r.git", "https://example.com/r.git -b main", "https://example.com/r.git [sub]", "https://example.com/r.git -b debian/sid [a/b]"]));
+        v.push(TypeRow { ty: "vcs::Vcs", n_values: vcs_row::n, value: vcs_row::value, canonical: vcs_row::CANONICAL, reprint: vcs_row::reprint, keywords: &[], case_insensitive: false });
+        v.push(TypeRow { ty: "vcs::Vcs kind name", n_values: vcs_row::kind_n, value: vcs_row::kind_value, canonical: vcs_row::KINDS, reprint: vcs_row::kind_reprint, keywords: vcs_row::KINDS, case_insensitive: false });
+    }
+
+    // ---- dep3/src/fields.rs ----
+    {
+        use dep3::{AppliedUpstream, Forwarded, Origin, OriginCategory};
+        // Forwarded: "no" / "not-needed" are the keywords, every other text is a reference (Yes) - nothing to reject
+        v.push(record_row!(Forwarded, "dep3::Forwarded",
+            values = {
+                let mut out = vec![Forwarded::No, Forwarded::NotNeeded];
+                for t in TOKENS.iter().chain(["yes", "https://example.com/bug/1"].iter()) {
+                    out.push(Forwarded::Yes(t.to_string()));
+                }
+                out
+            },
+            canonical = ["no", "not-needed", "yes", "https://example.com/bug/1"]));
+        v.push(enum_row!(OriginCategory, "dep3::OriginCategory",
+            [OriginCategory::Backport, OriginCategory::Vendor, OriginCategory::Upstream, OriginCategory::Other],
+            keywords = ["backport", "vendor", "upstream", "other"], case_insensitive = false));
+        v.push(record_row!(Origin, "dep3::Origin",
+            values = {
+                let mut out = vec![];
+                for t in TOKENS.iter().chain(["https://example.com/p.patch"].iter()) {
+                    out.push(Origin::Commit(t.to_string()));
+                    out.push(Origin::Other(t.to_string()));
+                }
+                out
+            },
+            canonical = ["commit:abc123", "https://example.com/p.patch", "é"]));
+        v.push(record_row!(AppliedUpstream, "dep3::AppliedUpstream",
+            values = {
+                let mut out = vec![];
+                for t in TOKENS.iter().chain(["https://example.com/c/1", "1.2.3"].iter()) {
+                    out.push(AppliedUpstream::Commit(t.to_string()));
+                    out.push(AppliedUpstream::Other(t.to_string()));
+                }
+                out
+            },
+            canonical = ["commit:abc123", "https://example.com/c/1", "1.2.3"]));
+        v.push(TypeRow { ty: "dep3::lossless::PatchHeader origin (category, Origin)", n_values: origin_row::n, value: origin_row::value_lossless, canonical: origin_row::CANONICAL, reprint: origin_row::reprint_lossless, keywords: &[], case_insensitive: false });
+        v.push(TypeRow { ty: "dep3::lossy::PatchHeader origin (category, Origin)", n_values: origin_row::n, value: origin_row::value_lossy, canonical: origin_row::CANONICAL, reprint: origin_row::reprint_lossy, keywords: &[], case_insensitive: false });
+    }
+
+    // ---- debian-copyright/src/lib.rs ----
+    {
+        use debian_copyright::License;
+        v.push(record_row!(License, "debian_copyright::License",
+            values = {
+                let names = ["GPL-3+", "a", "é", "MIT or Apache-2.0"];
+                let texts = ["", "a", "line one", " indented\n .\n more", "two\nlines", "é\n"];
+                let mut out = vec![];
+                for n in names { out.push(License::Name(n.to_string())); }
+                for t in texts { out.push(License::Text(t.to_string())); }
+                for n in names { for t in texts { out.push(License::Named(n.to_string(), t.to_string())); } }
+                out
+            },
+            canonical = ["GPL-3+", "GPL-3+\n text", "\n text\n more", "MIT or Apache-2.0\n a\n .\n b"]));
+    }
+
+    // ---- apt-sources ----
+    {
+        use apt_sources::signature::Signature;
+        use apt_sources::{RepositoryType, YesNoForce};
+        v.push(enum_row!(RepositoryType, "apt_sources::RepositoryType",
+            [RepositoryType::Binary, RepositoryType::Source],
+            keywords = ["deb", "deb-src"], case_insensitive = false));
+        v.push(enum_row!(YesNoForce, "apt_sources::YesNoForce",
+            [YesNoForce::Yes, YesNoForce::No, YesNoForce::Force],
+            keywords = ["yes", "no", "force"], case_insensitive = false));
+        v.push(record_row!(Signature, "apt_sources::Signature",
+            values = {
+                let mut out = vec![];
+                for p in TOKENS.iter().chain(["/usr/share/keyrings/x.gpg", "/etc/apt/trusted.gpg.d/é.asc"].iter()) {
+                    out.push(Signature::KeyPath(std::path::PathBuf::from(p)));
+                }
+                for b in ["-----BEGIN PGP PUBLIC KEY BLOCK-----\n.\nmQINBF\n=abcd\n-----END PGP PUBLIC KEY BLOCK-----", "a\nb"] {
+                    out.push(Signature::KeyBlock(b.to_string()));
+                }
+                out
+            },
+            canonical = ["/usr/share/keyrings/x.gpg", "a", "\n-----BEGIN PGP PUBLIC KEY BLOCK-----\n.\nmQINBF\n=abcd\n-----END PGP PUBLIC KEY BLOCK-----"]));
+    }
     v
 }
